@@ -10,7 +10,6 @@
         is std::invoke(f_, *p_) (:114): an iterator over a transform_ptr is the iterator over the wrapped pointer,
         dereferenced through f.  That is what "the iterator of a projected view is the ait/eit of Model/Iter.v on
         p_view" says.
-     /repo/include/boost/multi/detail/layout.hpp :985-989  scale(num, den): assert(offset_ == 0)
      /repo/include/boost/multi/array.hpp
         static_array(It first, It last[, alloc])                 :250-271   extensions = [0, last-first) x extensions of the first row
         static_array(Range const&)                               :273-280   = static_array(begin(rng), end(rng))
@@ -56,27 +55,6 @@ Definition p_e_index (x : pview) (it : eit) (k : Z) : Z := p_org x + p_esz x * e
 (* two projected views designate the same elements: same layout, same element size, same byte pointer *)
 Definition pv_same (a b : pview) : Prop :=
   lay (p_view a) = lay (p_view b) /\ p_esz a = p_esz b /\ p_ptr a = p_ptr b.
-
-(* ---- index bases ---- *)
-(* layout.hpp:987  assert(offset_ == 0) at every level of the two-argument scale: member_cast,
-   reinterpret_array_cast<U>(n) and reinterpret_array_cast<U>() accept only views whose index bases are all 0.
-   The one exception is reinterpret_array_cast<U>() called on a CONST rank-1 view: that overload
-   (const_subarray<T,1>::reinterpret_array_cast() const&, array_ref.hpp:3243-3251) has its own code and scales the
-   offset (ProjectC12.l_reinterpret); the & and && overloads of a rank-1 view are the generic ones of subarray
-   (array_ref.hpp:2266-2287) and go through scale.  On views with zero bases the two codes give the same layout
-   (ProjectC12Scale.l_reinterpret_zero_based).  constref = the projection is called through a const reference. *)
-Definition dom_scale_off (l : layout) : bool := forallb (fun d => d_offset d =? 0) l.
-Definition p_dom_proj_based (constref : bool) (p : proj) (x : pview) : bool :=
-  match p with
-  | PMember _ _ => dom_scale_off (lay (p_view x))
-  | PReinterpret _ =>
-      match lay (p_view x) with
-      | [_] => constref || dom_scale_off (lay (p_view x))
-      | l => dom_scale_off l
-      end
-  | PReinterpretN _ _ => dom_scale_off (lay (p_view x))
-  | PIdentity => true
-  end.
 
 (* ---- arrays made from an iterator pair / from the flat range ---- *)
 (* array(first, last): ref(allocate(...), index_extension(last - first) * extensions( *first)): the leading index
